@@ -48,11 +48,13 @@ func (config *CacheConfig) Verify() error {
 func (config *CacheConfig) getChunkConfig() immunityChunkConfig {
 	numChunks := core.MaxUint32(config.NumChunks, 1)
 
+	// The limits are split among the chunks. A chunk limit of zero (total limit less than the number of chunks)
+	// would make the chunk refuse every item, so each chunk gets at least 1.
 	return immunityChunkConfig{
 		cacheName:                   config.Name,
-		maxNumItems:                 config.MaxNumItems / numChunks,
-		maxNumBytes:                 config.MaxNumBytes / numChunks,
-		numItemsToPreemptivelyEvict: config.NumItemsToPreemptivelyEvict / numChunks,
+		maxNumItems:                 core.MaxUint32(config.MaxNumItems/numChunks, 1),
+		maxNumBytes:                 core.MaxUint32(config.MaxNumBytes/numChunks, 1),
+		numItemsToPreemptivelyEvict: core.MaxUint32(config.NumItemsToPreemptivelyEvict/numChunks, 1),
 	}
 }
 
